@@ -229,3 +229,53 @@ HARNESSES = [
     _h("c10_witness_order", h_witness_order, "3 plutus v3 witness directives; hash-container iteration order: all", map_order="all"),
     _h("c10_compile_wiring", h_compile_wiring, "Compiler::compile on a constant template; extra_fees in {None, Some(0), Some(350000)}; payload length symbolic (< 2^32)"),
 ]
+
+
+# ---- no duplicates in set-like fields ------------------------------------------------------
+
+def h_duplicates(ctx, tier, seed):
+    """the same signer / reference / metadata label written twice does not produce a duplicate
+    entry in the corresponding set- or map-like field"""
+    eng = ctx.eng; T = TIR(eng)
+    which = eng.choose(4, "duplicated item")
+    tx = mk_tx(T, outputs=[out(T)],
+               signers=some(T.st("Signers", signers=VecM([T.bytes([5] * 28), T.bytes([6] * 28), T.bytes([5] * 28)]))) if which == 0 else none(),
+               references=[T.v("Expression", "UtxoRefs", VecM([utxo_ref(T, [9] * 32, 1)])), T.v("Expression", "UtxoRefs", VecM([utxo_ref(T, [9] * 32, 1)]))] if which == 1 else [],
+               metadata=[T.st("Metadata", key=T.num(674), value=T.string("a")), T.st("Metadata", key=T.num(674), value=T.string("b"))] if which == 2 else [],
+               collateral=[T.st("Collateral", utxos=T.v("Expression", "UtxoRefs", VecM([utxo_ref(T, [8] * 32, 0), utxo_ref(T, [8] * 32, 0), utxo_ref(T, [8] * 32, 1)])))] if which == 3 else [])
+    try:
+        b = models.deref(eng.call_fn(eng.find(short="compile_tx_body"), [ref_to_value(tx), network(eng)]))
+        aux = models.deref(eng.call_fn(eng.find(short="compile_auxiliary_data"), [ref_to_value(tx)]))
+    except Panic as p:
+        ctx.violation("panicked: %s" % p.kind, site=p.site)
+        return
+    ctx.require(b.variant == "Ok", "the template compiles")
+    if b.variant != "Ok":
+        return
+    bn = eng.tdef("TransactionBody", "struct")[1][2]
+    body = models.deref(b.fields[0])
+
+    def items(f):
+        v = models.deref(body.fields[bn.index(f)])
+        if v.variant != "Some":
+            return []
+        inner = models.deref(v.fields[0])
+        while isinstance(inner, Agg):
+            inner = models.deref(inner.fields[0])
+        return [repr(models.deref(x)) for x in inner.items]
+    if which == 0:
+        got = items("required_signers")
+        ctx.require(len(got) == len(set(got)), "a signer named twice appears once in required_signers (got %d entries)" % len(got), shape="duplicate required signer")
+        ctx.require(len(set(got)) == 2, "both distinct signers are present")
+    elif which == 1:
+        got = items("reference_inputs")
+        ctx.require(len(got) == len(set(got)), "a reference given twice appears once in reference_inputs (got %d entries)" % len(got), shape="duplicate reference input")
+    elif which == 3:
+        got = items("collateral")
+        ctx.require(len(got) == len(set(got)), "a collateral input given twice appears once (got %d entries)" % len(got), shape="duplicate collateral input")
+        ctx.require(len(set(got)) == 2, "both distinct collateral inputs are present")
+    else:
+        ctx.require(aux.variant == "Ok" and models.deref(aux.fields[0]).variant == "Some", "metadata is emitted")
+
+
+HARNESSES.append(_h("c10_duplicates", h_duplicates, "a signer, a reference input and a metadata label each written twice"))
